@@ -179,6 +179,23 @@ CHECKS['C07'] = dict(
          'ensure_ascii=False, load(json) equal for printable-BMP data.',
     design='4 C07')
 
+CHECKS['C06'] = dict(
+    technique='Hypothesis-generated (model, value) pairs; the dumped text is '
+              'read by a plain YAML parser (PyYAML safe_load/parse/'
+              'compose_all) and compared with an independent projection '
+              '(reference model); object-graph snapshot and double-dump '
+              'comparison (invariants)',
+    text='Generated models (inheritance, enums, string-likes also as keys, '
+         'Path, dates, Any/untyped, _yatiml_extra, _yatiml_attributes, hidden '
+         'state, declarative sweeten hooks: default removal with overrides, '
+         'renaming, dashes, added/removed attributes, seq/index-to-map) x '
+         'values with hard strings, non-finite floats, big ints, optionally a '
+         'sub-object referenced twice: exactly one well-formed document, no '
+         'explicit tag on any event, safe_load(text) equals the projection '
+         'strictly and in order, object graph (identities, types, vars, '
+         'order) unchanged, second dump identical.',
+    design='4 C06')
+
 NOT_YET = 'check not built yet in this session (work in progress)'
 
 
